@@ -64,7 +64,7 @@ struct al<T, PK, FORM, MUL, OPS, PD, axl<Ax...>, axl<Bx...>> {
       apply(v, a.op2, A(mk(Bx{}, a.trs3 + 3 * J)...));
     }
   }
-  static void run(T *data, Args<T> &a) {
+  static void run(T *data, Args<T> &a) { vf::ArmedThunk vf_armed_;
     if constexpr (PK == 0) {
       tensor_t<T, PD> A; std::copy(data, data + PD::size(), A.data());
       go(A, a, std::make_index_sequence<sizeof...(Ax)>{}, std::make_index_sequence<sizeof...(Bx)>{});
